@@ -33,7 +33,11 @@ VALID = {
             "CVSS:4.0/AV:A/AC:L/AT:N/PR:L/UI:P/VC:L/VI:H/VA:N/SC:N/SI:L/SA:N/E:P/CR:M/MSI:S",
             "CVSS:4.0/AV:L/AC:H/AT:P/PR:N/UI:P/VC:H/VI:N/VA:N/SC:N/SI:N/SA:N/S:P/AU:N/R:A/V:D/RE:L/U:Red/MAV:L/MAC:L/MAT:N/MPR:L/MUI:A/MVC:L/MVI:N/MVA:H/MSC:H/MSI:L/MSA:N/CR:H/IR:L/AR:L/E:P",
             "CVSS:4.0/SA:L/SI:L/SC:L/VA:L/VI:L/VC:L/UI:N/PR:N/AT:N/AC:L/AV:N",
-            "CVSS:4.0/AV:N/AC:L/AT:N/PR:N/UI:N/VC:N/VI:N/VA:H/SC:N/SI:N/SA:N/AR:L/U:Clear"],
+            "CVSS:4.0/AV:N/AC:L/AT:N/PR:N/UI:N/VC:N/VI:N/VA:H/SC:N/SI:N/SA:N/AR:L/U:Clear",
+            # the lowest macrovector (no next-lower macrovector in any class) and the highest
+            "CVSS:4.0/AV:P/AC:H/AT:P/PR:H/UI:A/VC:L/VI:L/VA:L/SC:L/SI:L/SA:L/E:U",
+            "CVSS:4.0/AV:L/AC:H/AT:N/PR:L/UI:P/VC:N/VI:N/VA:L/SC:N/SI:N/SA:N/E:U/CR:L/IR:L/AR:L",
+            "CVSS:4.0/AV:N/AC:L/AT:N/PR:N/UI:N/VC:H/VI:H/VA:H/SC:H/SI:H/SA:H/MSI:S/MSA:S"],
 }
 INVALID = ["x", "AV:N", "AV:N/AC:L/Au:N/C:P/I:P", "AV:N/AC:L/Au:N/C:P/I:P/A:P/", "AV:N/AC:L/Au:N/C:P/I:P/A:Q",
            "AV:N/AC:L/Au:N/C:P/I:P/A:P/A:P", "CVSS:3.1/", "CVSS:3.2/AV:N/AC:L/PR:N/UI:N/S:U/C:H/I:H/A:H",
@@ -41,7 +45,15 @@ INVALID = ["x", "AV:N", "AV:N/AC:L/Au:N/C:P/I:P", "AV:N/AC:L/Au:N/C:P/I:P/A:P/",
            "CVSS:4.0/AV:N/AC:L/AT:N/PR:N/UI:N/VC:H/VI:H/VA:H/SC:H/SI:H",
            "CVSS:4.0/AV:N/AC:L/AT:N/PR:N/UI:N/VC:H/VI:H/VA:H/SC:H/SI:H/SA:S", "CVSS:4.0/JJ:H",
            "é:N/AC:L", "AV:N AC:L", " ", "7.5/AV:N/AC:L/Au:N/C:P/I:P/A:P", "AV:N//AC:L", ":", "/",
-           "{0}", "%s", "AV:N\nAC:L"]
+           "{0}", "%s", "AV:N\nAC:L",
+           # fields with too many / misplaced colons, values legal for a sibling metric only
+           "AV:N:N/AC:L/Au:N/C:P/I:P/A:P", "AV:N/AC:L/Au:N/C:P/I:P/A:P:", "AV:N/AC:L/Au:N/C:P/I:P/A:P/E::F",
+           "CVSS:3.1/AV:N/AC:L/PR:N/UI:N/S:U/C:H/I:H/A:H:", "CVSS:3.1/AV:N/AC:L:H/PR:N/UI:N/S:U/C:H/I:H/A:H",
+           "CVSS:4.0/AV:N/AC:L/AT:N/PR:N/UI:N/VC:H/VI:H/VA:H/SC:N/SI:N/SA:N/MSC:S",
+           "CVSS:4.0/AV:N/AC:L/AT:N/PR:N/UI:N/VC:H/VI:H/VA:H/SC:N/SI:S/SA:N",
+           "CVSS:4.0/AV:N/AC:L/AT:N/PR:N/UI:N/VC:H/VI:H/VA:H/SC:N/SI:N/SA:N/E:F",
+           "CVSS:3.1/AV:N/AC:L/PR:N/UI:N/S:U/C:H/I:H/A:H/E:A", "AV:N/AC:L/Au:N/C:P/I:P/A:P/E:P",
+           "CVSS:4.0/AV:N/AC:L/AT:N/PR:N/UI:N/VC:H/VI:H/VA:H/SC:N/SI:N/SA:N/CVSS:4.0"]
 VERSION_FLAGS = [list(c) for r in range(4) for c in itertools.combinations(["-2", "-3", "-4"], r)]
 OTHER_FLAGS = [list(c) for r in range(4) for c in itertools.combinations(["-j", "-a", "-n"], r)]
 
